@@ -61,7 +61,8 @@ REJECT = {
     "BooleanParameter": ["float"] + CONT + ["command"],
     "ResultParameter": ["int", "float", "bool"] + CONT,
     "ListParameter": ["int", "float", "bool", "str", "dict0", "dict1", "command"],
-    "TupleParameter": ["int", "float", "bool", "str", "list1", "tuple0", "tuple1", "command"],
+    # an empty tuple may be taken for "no pairs" like the empty list the parser delivers, or refused: both keep the property
+    "TupleParameter": ["int", "float", "bool", "str", "list1", "tuple1", "command"],
     "DataParameter": ["int", "float", "bool", "str"] + CONT + ["command"],
     "DataTypeParameter": ["int", "float", "bool"] + CONT + ["command"],
 }
